@@ -626,7 +626,16 @@ func (e *Env) concurrentSmoke(drv, label string, pool []plan.Op, procs, loops in
 		viol := func(what string, detail any) {
 			e.Violate(&Violation{What: fmt.Sprintf("%d goroutines calling concurrently from a cold start (GOMAXPROCS %d): %s", G, c.GoMaxProcs, what), Conc: c, Detail: detail})
 		}
+		own := smokeOwnFuncs[label]
 		if cr.Trailer == nil {
+			// a crash is this monitor's business only when it happened inside a function its
+			// property speaks about (C12 and C14 are about every function)
+			if len(own) > 0 && !crashInside(cr.Stderr, own) {
+				mu.Lock()
+				smokeBystanderCrashes++
+				mu.Unlock()
+				return
+			}
 			viol("the process produced no complete result set: "+oneLine(cr.Stderr+" "+cr.ExitErr, 400), cr.Stderr)
 			return
 		}
@@ -638,6 +647,9 @@ func (e *Env) concurrentSmoke(drv, label string, pool []plan.Op, procs, loops in
 				n = res.Agg
 			}
 			if res.Panic != "" {
+				if len(own) > 0 && !crashInside(res.Panic, own) {
+					continue
+				}
 				viol(fmt.Sprintf("%s panicked: %s", fnName(op.Fn), oneLine(res.Panic, 300)), res)
 				return
 			}
@@ -654,6 +666,44 @@ func (e *Env) concurrentSmoke(drv, label string, pool []plan.Op, procs, loops in
 		}
 	})
 	return calls
+}
+
+// smokeOwnFuncs names, per monitor, the exported functions its property speaks about: a
+// crash under concurrency is reported by that monitor only when the crashing goroutine's
+// stack passes through one of them.
+var smokeOwnFuncs = map[string][]string{
+	"C01": {"bip39.NewMnemonicByEntropy"},
+	"C02": {"bip39.CheckMnemonic", "bip39.IsMnemonicValid"},
+	"C03": {"-"}, // C03 constrains what acceptance implies; a call that returns nothing accepts nothing
+	"C04": {"bip39.MnemonicToSeed"},
+	"C05": {"-"}, // a call that returns no mnemonic is not C05's subject
+	"C08": {"bip39.NewMnemonicByEntropy", "bip39.CheckMnemonic", "bip39.IsMnemonicValid"},
+	"C09": {"bip39.NewMnemonicByEntropy", "bip39.NewMnemonic"},
+	"C10": {"-"}, // C10 and C11 compare verdicts and seeds; a call that returns nothing gives neither
+	"C11": {"-"},
+	"C15": {"bip39.CheckMnemonic"},
+	"C16": {"bip39.Language.String"},
+}
+
+var smokeBystanderCrashes int
+
+// crashInside reports whether the stack of the goroutine that crashed (the first
+// "[running]" goroutine of a fatal error or panic dump, or the whole text of a recovered
+// panic's stack) passes through one of the functions.
+func crashInside(dump string, funcs []string) bool {
+	blk := dump
+	if i := strings.Index(dump, "[running]"); i >= 0 {
+		blk = dump[i:]
+		if j := strings.Index(blk, "\n\ngoroutine "); j >= 0 {
+			blk = blk[:j]
+		}
+	}
+	for _, f := range funcs {
+		if strings.Contains(blk, f+"(") {
+			return true
+		}
+	}
+	return false
 }
 
 // smokePool builds the small pool of calls concurrentSmoke repeats; kind selects the
@@ -701,7 +751,12 @@ func (e *Env) smokePool(label, kind string) []plan.Op {
 	case "seed":
 		pool = append(append(append(pool, seed...), enc[:2]...), chk[:2]...)
 	case "str":
+		// with the first validation of every language as bystanders (the lazily built tables
+		// are the package's only other state keyed by Language)
 		pool = append(append(pool, str...), enc[:2]...)
+		for l := 0; l < ref.NLang; l++ {
+			pool = append(pool, plan.Op{Fn: "chk", L: int64(l), S: hxs(m.Enc(r.Bytes(16), l))})
+		}
 	}
 	return pool
 }
